@@ -630,13 +630,16 @@ func propDescriptor(t *rapid.T) {
 }
 
 // rec2 has the same field NAMES as rec at different positions (and an extra leading field):
-// a field-name based descriptor must resolve the name per record type.
+// a field-name based descriptor must resolve the name per record type. It also carries a slice, as
+// records do: the element type of a sort is "any", not "comparable" - two records are never compared
+// with == by anything but the given keys.
 type rec2 struct {
-	Pad int
-	K3  fpgo.ComparableOrdered[string]
-	ID  int
-	K1  fpgo.ComparableOrdered[int]
-	K2  fpgo.ComparableString
+	Tags []string
+	Pad  int
+	K3   fpgo.ComparableOrdered[string]
+	ID   int
+	K1   fpgo.ComparableOrdered[int]
+	K2   fpgo.ComparableString
 }
 
 func propSecondType(t *rapid.T) {
@@ -656,7 +659,7 @@ func propSecondType(t *rapid.T) {
 	}
 	in2 := make([]rec2, len(in))
 	for i, r := range in {
-		in2[i] = rec2{Pad: 1000 - i, K3: r.K3, ID: r.ID, K1: r.K1, K2: r.K2}
+		in2[i] = rec2{Tags: []string{"t"}, Pad: 1000 - i, K3: r.K3, ID: r.ID, K1: r.K1, K2: r.K2}
 	}
 	b := buildDescriptors(c.Spec, func(r rec2) rec { return rec{K1: r.K1, K2: r.K2, K3: r.K3, ID: r.ID} })
 	var got []rec2
